@@ -186,6 +186,12 @@ pub fn lib_hook(site: u32) {
     }
     let n = LIB_HITS.fetch_add(1, Ordering::Relaxed);
     log_event(OP_LIB, site as u64);
+    if gated() {
+        LIB_YIELDS.fetch_add(1, Ordering::Relaxed);
+        STEP.fetch_add(1, Ordering::Relaxed);
+        gate();
+        return;
+    }
     if RDV_SITE.load(Ordering::Relaxed) as u32 == site && site != 0 {
         let t = me() & 7;
         PARKED[t].store(1, Ordering::Relaxed);
@@ -230,6 +236,85 @@ pub fn force_yield() {
 }
 
 type Body = Arc<dyn Fn(usize) + Send + Sync + 'static>;
+
+// Lockstep gate (std-thread engine only). Real threads under Miri are pre-empted at random, and the
+// thread spawned first is thousands of basic blocks ahead of the next: windows of a few dozen blocks
+// (two writers inside an unlocked store loop of a shared memo) practically never overlap. In a gated
+// run every task waits for all the others before each of its operations *and at every library
+// scheduling point*; tasks doing similar work therefore leave each site together and Miri's seeded
+// pre-emption interleaves them inside the stretch up to the next site. A task that ends leaves the
+// gate, so unequal numbers of arrivals cannot deadlock. Under shuttle the Rendezvous scheduler plays
+// this part and the gate is compiled out.
+#[cfg(not(feature = "shuttle"))]
+mod lockstep {
+    use std::sync::{Condvar, Mutex};
+    pub struct G {
+        pub parties: usize,
+        pub arrived: usize,
+        pub gen: u64,
+    }
+    pub static G: Mutex<G> = Mutex::new(G { parties: 0, arrived: 0, gen: 0 });
+    pub static CV: Condvar = Condvar::new();
+}
+
+pub fn set_gate(_n: usize) {
+    #[cfg(not(feature = "shuttle"))]
+    {
+        let mut g = lockstep::G.lock().unwrap();
+        g.parties = if _n > 1 { _n } else { 0 };
+        g.arrived = 0;
+    }
+}
+
+/// Wait until every task still in the gate has arrived.
+pub fn gate() {
+    #[cfg(not(feature = "shuttle"))]
+    {
+        let saved = alloc::suspend();
+        {
+            let mut g = lockstep::G.lock().unwrap();
+            if g.parties > 1 {
+                g.arrived += 1;
+                if g.arrived >= g.parties {
+                    g.arrived = 0;
+                    g.gen += 1;
+                    lockstep::CV.notify_all();
+                } else {
+                    let gen = g.gen;
+                    while g.gen == gen && g.parties > 1 {
+                        g = lockstep::CV.wait(g).unwrap();
+                    }
+                }
+            }
+        }
+        alloc::resume(saved);
+    }
+}
+
+/// A task that has finished its operations no longer takes part.
+pub fn leave_gate() {
+    #[cfg(not(feature = "shuttle"))]
+    {
+        let mut g = lockstep::G.lock().unwrap();
+        if g.parties > 0 {
+            g.parties -= 1;
+            if g.arrived >= g.parties {
+                g.arrived = 0;
+                g.gen += 1;
+            }
+            lockstep::CV.notify_all();
+        }
+    }
+}
+
+fn gated() -> bool {
+    #[cfg(not(feature = "shuttle"))]
+    {
+        return lockstep::G.lock().unwrap().parties > 1;
+    }
+    #[allow(unreachable_code)]
+    false
+}
 
 // ---------------------------------------------------------------------------
 // shuttle engine
